@@ -80,8 +80,8 @@ CLAIMS = {
          TB + "labels are taken in parsed form; the real label parser is checked by the harness against the generating structure; Python floats are outside the model except for the bit-exact comparison of the 25-sweep run to 1e-9."),
  "C19": ("About the real-number functions the code computes: expo_nonneg/expo_hasSum_one, pois_nonneg/pois_hasSum_one, both truncation loops terminate in the documented parameter range (and the zeta loop provably does not for alpha <= 0), zeta_tail_bound (0 < zeta - C <= K*tol), powerLaw_close / powerLaw_sum (relative error K*tol), polylog_tail_bound, cutoff_close / cutoff_sum (relative error tol/(1-z)); zetaLoop_spec / polylogLoop_spec tie the executable rational loops of Model/Distributions.lean to these definitions. PARTIAL by nature: floating-point rounding and numpy.exp are outside the model and are covered only numerically (60-digit reference, relative 1e-9 plus the proved bound).",
          TB + "numerical comparison with tolerances is used for this property only; for integer alpha the truncated normaliser and its stopping index are compared with the executable Lean model."),
- "C11": ("One-step theorems for the model of a proposal (corner lists validated as sets, suitability with the repaired membership clause, application of an accepted swap), lifted to every history by steps_invariant: vertex set and annotations untouched (nodes_preserved), WF preserved incl. no self-loop and no collapsed duplicate (wf_preserved, no_self_loop_created, incoming_vertex_outside_motif), edge_count_preserved, topology_degrees_preserved, suitable_applies (no 'edge already present' error). Motif shape: KNOWN FINDING, not repaired (DESIGN 0.2): known_finding_ids_exchanged is the kernel-checked witness that the code as written exchanges the motif ids of the swapped corners; fixed_step_preserves_shape proves that the intended assignment maps each motif's edge set by the substitution u0 -> v0, injective on the motif's vertices. The check prints KNOWN-FINDING for exactly that signature and reports any other shape violation.",
-         TB + "networkx edge-iteration order and the two while-loops of rewire() are not modelled; every swap_condition call of a run is captured with the graph before it and replayed in the model; constructor defaults are checked by the harness only."),
+ "C11": ("One-step theorems for the model of a proposal (corner lists validated as sets, suitability with the repaired membership clause, application of an accepted swap), lifted to every history by steps_invariant: vertex set and annotations untouched (nodes_preserved), WF preserved incl. no self-loop and no collapsed duplicate (wf_preserved, no_self_loop_created, incoming_vertex_outside_motif), edge_count_preserved, topology_degrees_preserved, suitable_applies (no 'edge already present' error). Motif shape: KNOWN FINDING, not repaired (DESIGN 0.2): known_finding_ids_exchanged is the kernel-checked witness that the code as written exchanges the motif ids of the swapped corners; fixed_step_preserves_shape proves that the intended assignment maps each motif's edge set by the substitution u0 -> v0, injective on the motif's vertices. The check prints KNOWN-FINDING for exactly that signature and reports any other shape violation. The whole of rewire() is modelled as well (Model/Rewire.lean: both while-loops, limits and counters, the drawable edge set driven by the same add/remove calls on the C20 model): rewire_steps derives the hypothesis of the one-step theorems from the loop's own tests, so rewire_invariants (vertices, annotations, edge count, topology degrees, simple graph) holds of what rewire() returns for every script of draws, any limits, both attribute assignments; rewire_sync (drawable set = edge set), rewire_no_internal_error, rewire_done_count (limit + 1 accepted swaps), rewire_count_accepts.",
+         TB + "networkx edge-iteration order is not modelled (corner lists are validated inputs of the model), nor logging and the acceptance-ratio list; every swap_condition call of a run is captured with the graph before it and replayed in the model, and the whole loop is replayed from the recorded draws, get_all_edges results and per-proposal uniform numbers (trace, accepted count, way of ending, final graph compared); constructor defaults are checked by the harness only."),
  "C12": ("created_edges_allowed / created_edges_positive: an accepted proposal only creates pairings whose target entries exist and are non-zero (positive under a non-negative target) — for every topology, every corner size; ratio_is_metropolis (top/bottom is the product of created weights over removed weights and exceeds the uniform draw), numerator_ne_zero, no_divide_by_zero (under 'existing edges keep non-zero weight'; a kernel-checked witness shows the hypothesis is needed), detailed_balance. PARTIAL: approaches_target_full (distance to a full-support target decreases) is a statement about a random process and is not proved.",
          TB + "the uniform draw is injected; target weights are exact rationals; convergence is not decided."),
 }
